@@ -149,7 +149,8 @@ def replay_case(ctx, prop, exe, variant):
     res = sched.run_case(exe, case, ctx.scratch)
     if mem:
         res["bug"] = res["bug"] or None
-    bad = None if mem else sched.accept_all(ctx, [sched.project_fan(res, variant)])[0] if res["crash"] is None and not res["bug"] else None
+    bad = None if mem else sched.accept_all(ctx, [sched.project_fan(res, variant, relay=sched.relay_capable(case))])[0] \
+        if res["crash"] is None and not res["bug"] else None
     if bad is not None:
         ctx.disagreement("Fan LTS (%s variant) vs dsh.c" % variant,
                          "projected trace line %d `%s`: %s" % (bad[0], bad[1], bad[2]), pack(res))
@@ -239,9 +240,12 @@ def explore_all(ctx, prop, exe_san, exe, variant, cov, dist):
         """monitors + acceptor for a list of runs"""
         # runs at memory-access granularity are judged by the monitors only: the LTS attributes the code between
         # two calls to the earlier call, which is exactly what those runs do not do
-        batches = [sched.project_fan(r, variant) if r["crash"] is None and not r["bug"] and
+        batches = [sched.project_fan(r, variant, relay=sched.relay_capable(r["case"]))
+                   if r["crash"] is None and not r["bug"] and
                    "mem" not in r["case"].get("yield", "") and not r["case"].get("signals_case") else None
                    for r in results]
+        dist["through_composed_acceptor"] = dist.get("through_composed_acceptor", 0) + \
+            sum(1 for b in batches if b is not None and b[0].startswith("initr"))
         idx = [i for i, b in enumerate(batches) if b is not None]
         verdicts = sched.accept_all(ctx, [batches[i] for i in idx]) if idx else []
         for i, bad in zip(idx, verdicts):
